@@ -443,7 +443,11 @@ func TestC04Bool(t *testing.T) {
 		}
 	}
 	// text: folding and re-association of + chains, constant calls
-	texts := []*lib.Node{lib.Str(""), lib.Str("a"), lib.Str("b"), lib.Key(), lib.Value(), lib.Call("upper", lib.Str("a")), lib.Call("lower", lib.Key()), lib.Call("str", lib.Int(3))}
+	// (the last three are numbers: a text chain with a number in it is refused
+	// today and counted as rejected; should it ever be accepted, whatever it
+	// then means must survive the rewrite like every accepted expression)
+	texts := []*lib.Node{lib.Str(""), lib.Str("a"), lib.Str("b"), lib.Key(), lib.Value(), lib.Call("upper", lib.Str("a")), lib.Call("lower", lib.Key()), lib.Call("str", lib.Int(3)),
+		lib.Int(1), lib.Int(2), lib.Call("strlen", lib.Key())}
 	for _, a := range texts {
 		for _, b := range texts {
 			for _, cN := range texts {
